@@ -377,6 +377,137 @@ def repr_impls(rep):
     return out
 
 
+# ------------------------------------------------------------------ div_const::repr: size-class arms against a ConstDivisorRepr
+# (round 6)  Read from the SOURCE FILE integer/src/div_const.rs (comments stripped), not from the expansion: the arms contain
+# `debug_assert_zero!`, whose expansion is std-internal text.  Every arm body must be, token for token (after renaming the two
+# pattern payloads to x0 / dv and dropping `&`, `&mut`, `.into()` on x0 and trailing commas), one of the shapes below;
+# anything else becomes `.other "<text>"`, which `CImpl.armsOk` refuses (the theorems fail closed).
+
+CPAT_L = {"Small": (False, False), "RefSmall": (False, True), "Large": (True, False), "RefLarge": (True, True)}
+CPAT_R = {"Single": ".single", "Double": ".double", "Large": ".large"}
+
+_UNSHIFTED = ("let mut allocation = MemoryAllocation::new(div::memory_requirement_exact(x0.len(), div_len)); "
+              "let q_top = div::div_rem_unshifted_in_place(&mut x0, &dv.normalized_divisor, dv.shift, dv.fast_div_top, "
+              "&mut allocation.memory()); ")
+CSHAPES = [
+    (".ssQ", "Repr::from_dword(div_rem_small_single(x0, dv).0)"),
+    (".sdQ", "Repr::from_word(div_rem_small_double(x0, dv).0)"),
+    (".zero", "Repr::zero()"),
+    (".lsQ", "let _rem = div::fast_div_by_word_in_place(&mut x0, dv.0.shift(), *dv.0.divider()); Repr::from_buffer(x0)"),
+    (".ldQ", "let _rem = div::fast_div_by_dword_in_place(&mut x0, dv.0.shift(), *dv.0.divider()); Repr::from_buffer(x0)"),
+    (".llQ", _UNSHIFTED + "x0.erase_front(div_len); x0.push_resizing(q_top); Repr::from_buffer(x0)"),
+    (".remDwordW", "Repr::from_word(dv.rem_dword(x0) >> dv.0.shift())"),
+    (".remDwordD", "Repr::from_dword(dv.rem_dword(x0) >> dv.0.shift())"),
+    (".lhsDword", "Repr::from_dword(x0)"),
+    (".lhsBuffer", "Repr::from_buffer(x0)"),
+    (".remLargeW", "Repr::from_word(dv.rem_large(x0) >> dv.0.shift())"),
+    (".remLargeD", "Repr::from_dword(dv.rem_large(x0) >> dv.0.shift())"),
+    (".remLargeLarge", "rem_large_large(x0, dv)"),
+    (".ssQR", "let (q, r) = div_rem_small_single(x0, dv); (Repr::from_dword(q), Repr::from_word(r))"),
+    (".sdQR", "let (q, r) = div_rem_small_double(x0, dv); (Repr::from_word(q), Repr::from_dword(r))"),
+    (".zeroLhsDword", "(Repr::zero(), Repr::from_dword(x0))"),
+    (".zeroLhsBuffer", "(Repr::zero(), Repr::from_buffer(x0))"),
+    (".lsQR", "let r = div::fast_div_by_word_in_place(&mut x0, dv.0.shift(), *dv.0.divider()); (Repr::from_buffer(x0), Repr::from_word(r))"),
+    (".ldQR", "let r = div::fast_div_by_dword_in_place(&mut x0, dv.0.shift(), *dv.0.divider()); (Repr::from_buffer(x0), Repr::from_dword(r))"),
+    (".llQR", _UNSHIFTED + "let mut q = Buffer::from(&x0[div_len..]); q.push_resizing(q_top); x0.truncate(div_len); "
+              "debug_assert_zero!(shift::shr_in_place(&mut x0, dv.shift)); (Repr::from_buffer(q), Repr::from_buffer(x0))"),
+]
+# fn rem_large_large(mut lhs: Buffer, rhs: &ConstLargeDivisor): everything but the `if` condition (that one is GUARDS'
+# guard_rem_large_large_reduce); `@` stands for the condition
+RLL_SHAPE = ("let modulus = &rhs.normalized_divisor; if @ { "
+             "let mut allocation = MemoryAllocation::new(div::memory_requirement_exact(lhs.len(), modulus.len())); "
+             "let _qtop = div::div_rem_unshifted_in_place(&mut lhs, modulus, rhs.shift, rhs.fast_div_top, &mut allocation.memory()); "
+             "lhs.truncate(modulus.len()); debug_assert_zero!(shift::shr_in_place(&mut lhs, rhs.shift)); } Repr::from_buffer(lhs)")
+
+
+def cnorm(t):
+    """normal form of an arm body (token list, payloads already renamed x0 / dv) as one string"""
+    s = " " + " ".join(t) + " "
+    s = s.replace(" , )", " )")
+    s = re.sub(r" & mut x0 ", " x0 ", s)
+    s = re.sub(r" & x0 (?!\[)", " x0 ", s)
+    s = re.sub(r" x0 \. into \( \) ", " x0 ", s)
+    return s.strip()
+
+
+def cact(t):
+    """Lean term (CAct) of an arm body"""
+    if len(t) >= 2 and t[0] == "{" and tok_balanced(t, 0) == len(t):
+        return cact(t[1:-1])
+    s = cnorm(t)
+    for name, shape in CSHAPES:
+        if s == cnorm(toks(shape)):
+            return name
+    head = toks("let div_len = dv.normalized_divisor.len(); if x0.len() < div_len")
+    if t[:len(head)] == head and len(t) > len(head) and t[len(head)] == "{":
+        e1 = tok_balanced(t, len(head))
+        if t[e1:e1 + 2] == ["else", "{"] and tok_balanced(t, e1 + 1) == len(t):
+            return ".ifShort (%s) (%s)" % (cact(t[len(head):e1]), cact(t[e1 + 1:]))
+    return '.other "%s"' % s.replace('"', "'").replace("\\", "/")[:300]
+
+
+def const_repr_impls(repo):
+    """([(trait, lhsRef, [(lLarge, divisor class, act)])], rem_large_large shape ok?) of `mod repr` of div_const.rs"""
+    src = re.sub(r"//[^\n]*", "", open(os.path.join(repo, "integer/src/div_const.rs")).read())
+    rep = submodule_text(src, "repr")
+    out = []
+    for m in HDR.finditer(rep):
+        trait, rhs, lhs = m.group(1), norm_type(m.group(2)), norm_type(m.group(3))
+        rhs, lhs = re.sub(r"<.*>", "", rhs), re.sub(r"<.*>", "", lhs)
+        if trait not in ("Div", "Rem", "DivRem") or lhs not in RTYPES or "ConstDivisorRepr" not in rhs:
+            continue
+        e = balanced(rep, m.end() - 1)
+        body = rep[m.end():e - 1]
+        fm = re.search(r"\bfn\s+%s\s*\(" % TRAITS[trait], body)
+        if not fm:
+            raise PlumbError("div_const::repr impl %s for %s: fn not found" % (trait, lhs))
+        p1 = balanced(body, fm.end() - 1, "(", ")")
+        b0 = body.index("{", p1)
+        t = toks(body[b0 + 1:balanced(body, b0) - 1])
+        head = ["match", "(", "self", ",", "rhs", ")", "{"]
+        if t[:len(head)] != head or tok_balanced(t, len(head) - 1) != len(t):
+            out.append((trait, RTYPES[lhs], [(False, ".single", '.other "%s"' % " ".join(t)[:200].replace('"', "'"))]))
+            continue
+        i, end, arms = len(head), len(t) - 1, []
+        while i < end:
+            if t[i] != "(":
+                raise PlumbError("div_const::repr impl %s for %s: arm pattern not understood at %r" % (trait, lhs, t[i:i + 8]))
+            pe = tok_balanced(t, i, "(", ")")
+            pat = " ".join(x for x in t[i + 1:pe - 1] if x != "mut")
+            mm = re.fullmatch(r"(\w+) \( (\w+) \) , ConstDivisorRepr :: (\w+) \( (\w+) \)", pat)
+            if not mm or mm.group(1) not in CPAT_L or mm.group(3) not in CPAT_R or t[pe] != "=>":
+                raise PlumbError("div_const::repr impl %s for %s: arm pattern %r" % (trait, lhs, pat))
+            l_large, l_ref = CPAT_L[mm.group(1)]
+            if l_ref != RTYPES[lhs]:
+                raise PlumbError("div_const::repr impl %s for %s: pattern constructor of the wrong type" % (trait, lhs))
+            j = pe + 1
+            if t[j] == "{":
+                k = tok_balanced(t, j)
+                body_t = t[j:k]
+                if k < end and t[k] == ",":
+                    k += 1
+            else:
+                depth, k = 0, j
+                while k < end and not (t[k] == "," and depth == 0):
+                    depth += {"(": 1, "{": 1, "[": 1, ")": -1, "}": -1, "]": -1}.get(t[k], 0)
+                    k += 1
+                body_t = t[j:k]
+                k += 1
+            ren = {mm.group(2): "x0", mm.group(4): "dv"}
+            ren.pop("_", None)
+            # (the divisor payload is called `div`, like the module: `div ::` is the module path, not the payload)
+            bt = [x if (n + 1 < len(body_t) and body_t[n + 1] == "::") else ren.get(x, x) for n, x in enumerate(body_t)]
+            arms.append((l_large, CPAT_R[mm.group(3)], cact(bt)))
+            i = k
+        out.append((trait, RTYPES[lhs], arms))
+    # fn rem_large_large: the body around its `if` condition
+    rll = toks(fn_text(rep, "rem_large_large"))
+    a, b = [cnorm(toks(x)) for x in RLL_SHAPE.split("@")]
+    s = cnorm(rll)
+    rll_ok = s.startswith(a + " ") and s.endswith(" " + b) and "{" not in s[len(a):len(s) - len(b)]
+    return out, rll_ok, s
+
+
 # ------------------------------------------------------------------ length guards of the division kernels
 
 # (Lean name, file, fn, kind of statement, index among the statements of that kind in the fn body, what it decides)
@@ -415,6 +546,8 @@ GUARDS = [
      "`rem_by_dword`: power-of-two shortcut"),
     ("guard_unshifted_carry", "integer/src/div/mod.rs", "div_rem_unshifted_in_place", "if", 0,
      "`div_rem_unshifted_in_place`: the shift carry gets its own quotient word"),
+    ("guard_rem_large_large_reduce", "integer/src/div_const.rs", "rem_large_large", "if", 0,
+     "`div_const::repr::rem_large_large`: the dividend is only reduced when it is at least as long as the divisor"),
 ]
 
 
@@ -616,11 +749,31 @@ def generate(repo=None):
     out.append(",\n".join(rl))
     out.append("]")
     out.append("")
+    cimpls, rll_ok, rll_text = const_repr_impls(repo or repo_dir())
+    if not cimpls:
+        raise PlumbError("no Div / Rem / DivRem<&ConstDivisorRepr> impl found in div_const::repr")
+    cimpls.sort(key=lambda r: (["DivRem", "Div", "Rem"].index(r[0]), r[1]))
+    out.append("/-- `mod repr` of div_const.rs (read from the source file): the arms of `match (self, rhs)` in every")
+    out.append("    `impl Div / Rem / DivRem<&ConstDivisorRepr>` for `TypedRepr` / `TypedReprRef`, each body classified token for token")
+    out.append("    (the model's `divConst` / `remConst` / `divRemConst` mirror them) -/")
+    out.append("def constReprTable : List CImpl := [")
+    cl = []
+    for trait, lref, arms in cimpls:
+        cl.append("  -- impl %s<&ConstDivisorRepr> for %s\n  ⟨%s, %s, [%s]⟩" % (
+            trait, "TypedReprRef" if lref else "TypedRepr", disp[trait], b(lref),
+            ", ".join("⟨%s, %s, %s⟩" % (b(ll), rc, act) for ll, rc, act in arms)))
+    out.append(",\n".join(cl))
+    out.append("]")
+    out.append("")
+    out.append("/-- `fn rem_large_large` of div_const::repr: its body is, token for token, `let modulus = …; if <guard_rem_large_large_reduce>")
+    out.append("    { unshifted division; truncate; shift back with debug_assert_zero! } Repr::from_buffer(lhs)` -/")
+    out.append("def remLargeLargeShape : CFnShape := %s" % (".reduceIfGuard" if rll_ok else '.other "%s"' % rll_text.replace('"', "'").replace("\\", "/")[:400]))
+    out.append("")
     for g in guard_defs(repo or repo_dir()):
         out.append(g)
         out.append("")
     out.append("end Dashu.Gen.DivPlumbing")
-    info = {"impls": len(rows), "repr_impls": len(rimpls), "expansion_cache_hit": hit, "source_hash": key,
+    info = {"impls": len(rows), "repr_impls": len(rimpls), "const_repr_impls": len(cimpls), "expansion_cache_hit": hit, "source_hash": key,
             "unclassified": [("%s<%s> for %s" % (r[1], r[3], r[2])) for r in rows if r[4]["core"].startswith(".other")]}
     return "\n".join(out) + "\n", info
 
